@@ -317,6 +317,25 @@ class VerifContext:
 
     # strings: defaults fail closed
     def format_numeric(self, interp, v, spec):
+        """float presentation types without width / fill: the text is a numeral whose value is
+          * the number itself when the precision round-trips every double (>= 17 significant digits), otherwise
+          * FMT_<spec>(x), an uninterpreted rounding with FMT(-x) = -FMT(x) and sign(FMT(x)) in {0, sign(x)}
+        (nothing else is known about a shorter numeral: an obligation that needs its exact value is then not provable)."""
+        import re as _re
+        from .sym import SReal, SStr, Lit, Hole
+        m = _re.fullmatch(r"(?:\.(\d+))?([gGeEfF])", spec or "")
+        if isinstance(v, SReal) and m:
+            prec = int(m.group(1)) if m.group(1) is not None else 6
+            sig = prec if m.group(2) in "gG" else (prec + 1 if m.group(2) in "eE" else 0)
+            if sig >= 17:
+                f = lambda t: t
+            else:
+                fn = z3.Function(f"FMT_{m.group(2)}{prec}", z3.RealSort(), z3.RealSort())
+                f = lambda t: fn(t)
+                interp.assume(z3.And(z3.Implies(v.t >= 0, fn(v.t) >= 0), z3.Implies(v.t <= 0, fn(v.t) <= 0), fn(-v.t) == -fn(v.t)))
+            if interp.branch(v.t < 0):
+                return SStr([Lit("-"), Hole("ufloat", z3.simplify(f(-v.t)))])
+            return SStr([Hole("ufloat", f(v.t))])
         raise Unsupported(f"format spec {spec!r} on symbolic number")
 
     def pad_string(self, interp, v, align, width):
@@ -327,6 +346,9 @@ class VerifContext:
 
     def strip_string(self, interp, s, chars):
         raise Unsupported("strip of symbolic string")
+
+    def strip_side(self, interp, s, which, chars):
+        raise Unsupported(f"str.{which} on symbolic string")
 
     def str_affix(self, interp, s, which, arg):
         if isinstance(s, str) and isinstance(arg, (str, tuple)):
